@@ -11,7 +11,7 @@ class C10(SessionProp):
     id = "C10"
     prop_file = "Props/C10"
     rule = (
-        "seeded histories (1-14 calls) of server and client sessions with every response kind x every candidate id "
+        "corpus: unsolicited-notification shapes (id 0, notice name, codes 2/8/52/80/0), 300-cycle histories replaying retired ids >= 257, >64 KiB queues; seeded histories (1-14 calls) of server and client sessions with every response kind x every RFC 4511 result code x every candidate id "
         "(outstanding, retired, never received, 0, negative, huge) in every state, after rejections and closure; after "
         "each call the pending bytes are read from a deep-copied clone; non-trivial = 3+ calls"
     )
@@ -22,7 +22,11 @@ class C10(SessionProp):
             {"role": 1, "calls": [[RECV, msgs.pack([1, [7, b"1.2", []], []])], [S_DONE, 1, 0, b"", b"", []], [S_DONE, 1, 0, b"", b"", []]], "meta": [None] * 3},
             {"role": 1, "calls": [[RECV, msgs.pack([1, [3, b"", 2, 0, 0, 0, False, [7, b"a"], []], []]) + msgs.pack([2, [7, b"1.2", []], []])],
                                   [S_ENTRY, 1, b"cn=x", [], []], [S_EXTRESP, 1, [], [], 0, b"", b"", []], [S_ENTRY, 1, b"cn=x", [], []]], "meta": [None] * 4},
-        ]
+        ] + [
+            # unsolicited-notification shapes: the property knows no exemption for id 0
+            {"role": 1, "calls": [[RECV, msgs.pack([1, [7, b"1.2", []], []])], [S_EXTRESP, 0, [msgs.OID_NOTICE], [], rc, b"", b"bye", []], [DRAIN, []]], "meta": [None] * 3}
+            for rc in (2, 8, 52, 80, 0)
+        ] + sessions.boundary_histories(SERVER)
 
     def oracle(self, c, ans):
         if ans and ans[0] == "!timeout":
